@@ -57,10 +57,27 @@ impl<'a, K: HKey> Ctx<'a, K> {
         let base: &[&[u8]] = &[b"", b"X", b"XY", b"hello world", b"XYXYXYXY"];
         match self.rng.below(20) {
             // one large single write call / the same bytes in small pieces (chunk independence, C18)
-            3 if self.prop == "C18" => {
+            3 if matches!(self.prop, "C18" | "C06") => {
                 let seed = self.rng.below(2);
-                let len = *self.rng.pick(&[131_071u64, 131_072, 131_073, 262_144]);
-                if self.rng.chance(1, 2) { format!("~{seed}:{len}") } else { format!("~{seed}:{len},=-") }
+                // thresholds hide at powers of two: 2^k-1, 2^k, 2^k+1 for 8 KiB … 2 MiB, as one
+                // chunk, as all-but-one-byte + one byte, or in 64 KiB pieces
+                let k = self.rng.range(13, 21);
+                let len = (1u64 << k) + self.rng.below(3) - 1;
+                match self.rng.below(4) {
+                    0 => format!("~{seed}:{len}"),
+                    1 => format!("~{seed}:{len},=-"),
+                    2 => format!("~{seed}:{},~{seed}:1", len - 1),
+                    _ => { let mut v = Vec::new(); let mut left = len; while left > 0 { let n = left.min(65_536); v.push(format!("~{seed}:{n}")); left -= n; } v.join(",") }
+                }
+            }
+            // a small head (stays in the BufWriter) followed by a large body, optionally a tail:
+            // mixed chunk sizes around the usual buffer thresholds (8 KiB, 64 KiB, 128 KiB)
+            4 if matches!(self.prop, "C18" | "C06" | "C01") => {
+                let head = self.rng.range(1, 40);
+                let len = *self.rng.pick(&[8192u64, 65_535, 65_536, 65_537, 131_072]);
+                let seed = self.rng.below(2);
+                let tail = if self.rng.chance(1, 2) { format!(",={}", hx(b"tail")) } else { String::new() };
+                format!("~{}:{head},~{seed}:{len}{tail}", seed + 1)
             }
             0 => format!("~{}:{}", self.rng.below(3), *self.rng.pick(&[8191u64, 8192, 8193, 20000])),
             1 => format!("~{}:{},={}", self.rng.below(3), 5000, hx(b"tail")),
@@ -106,6 +123,8 @@ impl<'a, K: HKey> Ctx<'a, K> {
         self.op("trace");
         let want = self.iter_want(Bound::Unbounded, Bound::Unbounded);
         self.expect("iter", &want);
+        // C13/C07: nothing of an abandoned or finished transaction is kept alive by a descriptor
+        if matches!(self.prop, "C13" | "C07") && quiescent { self.expect("leaks", "0"); }
         // C12: stats and reference counts
         let mut rc: BTreeMap<String, (u32, u64)> = BTreeMap::new();
         for c in self.map.values() {
